@@ -87,6 +87,20 @@ theorem invP_insert_some {marks : List Nat} {st : PState} (h : InvP marks st) (c
     exact hl hm
   · exact h f' pos' b' ts' len' hm h2
 
+theorem invP_insertW_none {marks : List Nat} {st : PState} (h : InvP marks st) (cap : Option Nat) (tw : Bool) (k : MKey) :
+    InvP marks { st with memo := st.memo.insertW cap tw k none } := by
+  unfold Memo.insertW; split
+  · exact invP_insert_none (st := { st with memo := st.memo.insert cap k none }) (invP_insert_none h cap k) cap k
+  · exact invP_insert_none h cap k
+
+theorem invP_insertW_some {marks : List Nat} {st : PState} (h : InvP marks st) (cap : Option Nat) (tw : Bool) (f pos : Nat) (b : Bool)
+    (ts : List Tree) (len : Nat) (hl : marks.contains f = true → 0 < len) :
+    InvP marks { st with memo := st.memo.insertW cap tw (f, pos, b) (some (ts, len)) } := by
+  unfold Memo.insertW; split
+  · exact invP_insert_some (st := { st with memo := st.memo.insert cap (f, pos, b) (some (ts, len)) })
+      (invP_insert_some h cap f pos b ts len hl) cap f pos b ts len hl
+  · exact invP_insert_some h cap f pos b ts len hl
+
 structure PAll (g : Grammar) (inp : Input) (marks : List Nat) (fuel : Nat) : Prop where
   eval : ∀ e pos r st, InvP marks st → PSpec marks (PR marks e) pos (eval g inp fuel e pos r st)
   seq : ∀ es pos r st, InvP marks st → PSpec marks (PRAny marks es) pos (evalSeq g inp fuel es pos r st)
@@ -475,13 +489,13 @@ theorem pAll_succ (g : Grammar) (inp : Input) (marks : List Nat) (hm : MarksOK g
         · rename_i q r' ts st' heq
           rw [heq] at h1
           refine ⟨?_, h1.2.1, h1.2.2⟩
-          apply invP_insert_some h1.1 g.memoCap
+          apply invP_insertW_some h1.1 g.memoCap
           intro hp
           have : pos < q := h1.2.2 hp
           omega
         · rename_i ep st' heq
           rw [heq] at h1
-          exact ⟨invP_insert_none h1.1 _ _, trivial, fun _ => trivial⟩
+          exact ⟨invP_insertW_none h1.1 _ _ _, trivial, fun _ => trivial⟩
         · rename_i st' heq
           rw [heq] at h1
           exact PSpec.oof h1.1
